@@ -260,9 +260,13 @@ pub enum Probe {
     SeqActions,
     /// A cancelled action was discarded from the scheduler queue.
     CancelledDiscarded,
+    /// The memory of a task was allocated.
+    TaskAlloc,
+    /// The memory of a task was released.
+    TaskDealloc,
 }
 
-pub const PROBE_COUNT: usize = 16;
+pub const PROBE_COUNT: usize = 18;
 
 /// Configuration installed by the harness for one simulated execution.
 pub struct Hooks {
@@ -327,6 +331,10 @@ fn with_hooks<R>(f: impl FnOnce(&mut Hooks) -> R) -> R {
 /// Installs a fresh hook configuration (resets counters and probes).
 pub fn install(hooks: Hooks) {
     with_hooks(|h| *h = hooks);
+    #[cfg(not(nexosim_verif_shuttle))]
+    for c in &TASK_COUNTS {
+        c.store(0, std::sync::atomic::Ordering::Relaxed);
+    }
 }
 
 /// Removes the hook configuration and returns the probe counters.
@@ -334,18 +342,43 @@ pub fn uninstall() -> [u64; PROBE_COUNT] {
     with_hooks(|h| {
         let probes = h.probes;
         *h = Hooks::new();
-        probes
+        merge_task_counts(probes)
     })
 }
 
 /// Returns the current probe counters.
 pub fn probes() -> [u64; PROBE_COUNT] {
-    with_hooks(|h| h.probes)
+    merge_task_counts(with_hooks(|h| h.probes))
 }
 
 #[inline]
 pub(crate) fn probe(p: Probe) {
     with_hooks(|h| h.probes[p as usize] += 1);
+}
+
+// Outside the simulator the task memory counters are plain relaxed atomics: a lock in the
+// release path of a task would order the threads involved and hide races from a race detector.
+#[cfg(not(nexosim_verif_shuttle))]
+static TASK_COUNTS: [std::sync::atomic::AtomicU64; 2] = [std::sync::atomic::AtomicU64::new(0), std::sync::atomic::AtomicU64::new(0)];
+
+/// Counts an allocation (`false`) or a release (`true`) of the memory of a task.
+#[inline]
+pub(crate) fn probe_task(release: bool) {
+    #[cfg(nexosim_verif_shuttle)]
+    probe(if release { Probe::TaskDealloc } else { Probe::TaskAlloc });
+    #[cfg(not(nexosim_verif_shuttle))]
+    TASK_COUNTS[release as usize].fetch_add(1, std::sync::atomic::Ordering::Relaxed);
+}
+
+#[cfg(not(nexosim_verif_shuttle))]
+fn merge_task_counts(mut probes: [u64; PROBE_COUNT]) -> [u64; PROBE_COUNT] {
+    probes[Probe::TaskAlloc as usize] = TASK_COUNTS[0].load(std::sync::atomic::Ordering::Relaxed);
+    probes[Probe::TaskDealloc as usize] = TASK_COUNTS[1].load(std::sync::atomic::Ordering::Relaxed);
+    probes
+}
+#[cfg(nexosim_verif_shuttle)]
+fn merge_task_counts(probes: [u64; PROBE_COUNT]) -> [u64; PROBE_COUNT] {
+    probes
 }
 
 #[inline]
